@@ -1,4 +1,5 @@
 import DiffxVerif.Properties.C20
+import DiffxVerif.Properties.C02Closed
 import DiffxVerif.Properties.C20Writer
 #print axioms Diffx.C20.C20_lossless
 #print axioms Diffx.C20.C20_contiguous
@@ -8,3 +9,4 @@ import DiffxVerif.Properties.C20Writer
 #print axioms Diffx.C20.C20_writer_file
 #print axioms Diffx.C20.C20_rendered_text
 #print axioms Diffx.C20.C20_writer_file_instance
+#print axioms Diffx.C20.C20_writer_file_closed
